@@ -643,4 +643,301 @@ theorem query_coherent (k : Kind) (iw : List Nat) (ss : Streams) (st : ObjState)
     · exact queryRgb_coherent k iw ss st h
     · exact queryShape_coherent k iw ss _ st h
 
+/-! ### deepening round D: helpers -/
+
+theorem dropWhile_head_false {α} (p : α → Bool) (l : List α) (y : α) (ys : List α)
+    (h : l.dropWhile p = y :: ys) : p y = false := by
+  induction l with
+  | nil => simp at h
+  | cons a l ih =>
+    rw [List.dropWhile_cons] at h
+    by_cases hp : p a = true
+    · rw [if_pos hp] at h; exact ih h
+    · rw [if_neg hp] at h; cases h; simpa using hp
+
+theorem mem_takeWhile_true {α} (p : α → Bool) (l : List α) (x : α)
+    (h : x ∈ l.takeWhile p) : p x = true := by
+  induction l with
+  | nil => simp at h
+  | cons a l ih =>
+    rw [List.takeWhile_cons] at h
+    by_cases hp : p a = true
+    · rw [if_pos hp] at h
+      rcases List.mem_cons.mp h with rfl | h
+      · exact hp
+      · exact ih h
+    · rw [if_neg hp] at h; simp at h
+
+theorem uptoLast_split (s : List Sample) :
+    ∃ tail, s = uptoLastBoundary s ++ tail ∧ (∀ x ∈ tail, x.2 ≠ 2) ∧
+      (uptoLastBoundary s = [] ∨ ∃ init d, uptoLastBoundary s = init ++ [(d, 2)]) := by
+  refine ⟨(s.reverse.takeWhile fun x => x.2 != 2).reverse, ?_, ?_, ?_⟩
+  · unfold uptoLastBoundary
+    rw [← List.reverse_append, List.takeWhile_append_dropWhile, List.reverse_reverse]
+  · intro x hx
+    have := mem_takeWhile_true _ _ _ (List.mem_reverse.mp hx)
+    simpa using this
+  · unfold uptoLastBoundary
+    cases h : s.reverse.dropWhile (fun x => x.2 != 2) with
+    | nil => left; rfl
+    | cons y ys =>
+      right
+      have hy := dropWhile_head_false _ _ _ _ h
+      refine ⟨ys.reverse, y.1, ?_⟩
+      have : y.2 = 2 := by simpa using hy
+      rw [List.reverse_cons, ← this]
+
+theorem zip_take_min (chan : List Int) (iw : List Nat) :
+    (chan.take (min chan.length iw.length)).zip (iw.take (min chan.length iw.length)) = chan.zip iw := by
+  induction chan generalizing iw with
+  | nil => simp
+  | cons c cs ih =>
+    cases iw with
+    | nil => simp
+    | cons i is =>
+      simp only [List.length_cons, Nat.succ_min_succ, List.take_succ_cons, List.zip_cons_cons]
+      rw [ih]
+
+theorem map_snd_zip_min (chan : List Int) (iw : List Nat) :
+    (chan.zip iw).map (·.2) = iw.take (min chan.length iw.length) := by
+  induction chan generalizing iw with
+  | nil => simp
+  | cons c cs ih =>
+    cases iw with
+    | nil => simp
+    | cons i is =>
+      simp only [List.length_cons, Nat.succ_min_succ, List.take_succ_cons, List.zip_cons_cons, List.map_cons]
+      rw [ih]
+
+
+/-! ### settled objects: answers do not depend on the history of queries -/
+
+/-- No colour's photon stream starts inside the object's current window (nothing to repair). -/
+def Settled (k : Kind) (iw : List Nat) (ss : Streams) (st : ObjState) : Prop :=
+  Coherent k iw ss st ∧ ∀ c, startsLate iw.length st.off (streamOf ss c) = false
+
+theorem photonAccess_not_late (k : Kind) (iw : List Nat) (s : Stream) (st : ObjState)
+    (h : startsLate iw.length st.off s = false) : photonAccess k iw s st = .ok st := by
+  unfold photonAccess
+  rw [h]; rfl
+
+theorem queryColour_settled (k : Kind) (iw : List Nat) (ss : Streams) (c : Nat) (st : ObjState)
+    (h : Settled k iw ss st) :
+    (queryColour k iw (streamOf ss c) c st).2 = freshImage k iw (streamOf ss c) st.off ∧
+    (queryColour k iw (streamOf ss c) c st).1.off = st.off ∧
+    Settled k iw ss (queryColour k iw (streamOf ss c) c st).1 := by
+  have hcoh := (queryColour_current k iw ss c st h.1).1
+  have key : (queryColour k iw (streamOf ss c) c st).2 = freshImage k iw (streamOf ss c) st.off ∧
+      (queryColour k iw (streamOf ss c) c st).1.off = st.off := by
+    unfold queryColour
+    split
+    · next im hl => exact ⟨(h.1 c im hl).symm, rfl⟩
+    · rw [photonAccess_not_late k iw _ st (h.2 c)]
+      simp only
+      split
+      · next e he => exact ⟨he.symm, rfl⟩
+      · next im he => exact ⟨he.symm, by split <;> rfl⟩
+  refine ⟨key.1, key.2, hcoh, ?_⟩
+  intro c'
+  rw [key.2]
+  exact h.2 c'
+
+theorem queryRgb_settled (k : Kind) (iw : List Nat) (ss : Streams) (st : ObjState)
+    (h : Settled k iw ss st) :
+    (queryRgb k iw ss st).2 = pureRgb (freshImage k iw (streamOf ss 0) st.off)
+      (freshImage k iw (streamOf ss 1) st.off) (freshImage k iw (streamOf ss 2) st.off) ∧
+    (queryRgb k iw ss st).1.off = st.off ∧ Settled k iw ss (queryRgb k iw ss st).1 := by
+  unfold queryRgb
+  obtain ⟨a0, o0, s0⟩ := queryColour_settled k iw ss 0 st h
+  split
+  · next st1 e he =>
+    rw [he] at a0 o0 s0
+    simp only at a0 o0 s0
+    rw [← a0]
+    exact ⟨rfl, o0, s0⟩
+  · next st1 r he =>
+    rw [he] at a0 o0 s0
+    simp only at a0 o0 s0
+    obtain ⟨a1, o1, s1⟩ := queryColour_settled k iw ss 1 st1 s0
+    rw [o0] at a1
+    split
+    · next st2 e he =>
+      rw [he] at a1 o1 s1
+      simp only at a1 o1 s1
+      rw [← a0, ← a1]
+      exact ⟨rfl, (by show st2.off = st.off; omega), s1⟩
+    · next st2 g he =>
+      rw [he] at a1 o1 s1
+      simp only at a1 o1 s1
+      obtain ⟨a2, o2, s2⟩ := queryColour_settled k iw ss 2 st2 s1
+      rw [o1, o0] at a2
+      split
+      · next st3 e he =>
+        rw [he] at a2 o2 s2
+        simp only at a2 o2 s2
+        rw [← a0, ← a1, ← a2]
+        exact ⟨rfl, (by show st3.off = st.off; omega), s2⟩
+      · next st3 b he =>
+        rw [he] at a2 o2 s2
+        simp only at a2 o2 s2
+        rw [← a0, ← a1, ← a2]
+        exact ⟨rfl, (by show st3.off = st.off; omega), s2⟩
+
+theorem queryShape_settled (k : Kind) (iw : List Nat) (ss : Streams) (cs : List Nat) (st : ObjState)
+    (h : Settled k iw ss st) :
+    (queryShape k iw ss cs st).2 = pureShape (fun c => freshImage k iw (streamOf ss c) st.off) cs ∧
+    (queryShape k iw ss cs st).1.off = st.off ∧ Settled k iw ss (queryShape k iw ss cs st).1 := by
+  induction cs generalizing st with
+  | nil => exact ⟨rfl, rfl, h⟩
+  | cons c cs ih =>
+    unfold queryShape pureShape
+    obtain ⟨a0, o0, s0⟩ := queryColour_settled k iw ss c st h
+    split
+    · next st1 e he =>
+      rw [he] at a0 o0 s0
+      simp only at a0 o0 s0
+      rw [← a0]
+      exact ⟨rfl, o0, s0⟩
+    · next st1 im he =>
+      rw [he] at a0 o0 s0
+      simp only at a0 o0 s0
+      rw [← a0]
+      simp only
+      by_cases hc : im.flat.length ≠ 0 ∨ cs.isEmpty
+      · rw [if_pos hc, if_pos hc]; exact ⟨rfl, o0, s0⟩
+      · rw [if_neg hc, if_neg hc]
+        obtain ⟨a, o, s⟩ := ih st1 s0
+        rw [o0] at a
+        exact ⟨a, by omega, s⟩
+
+theorem query_settled (k : Kind) (iw : List Nat) (ss : Streams) (st : ObjState) (q : Nat)
+    (h : Settled k iw ss st) :
+    (query k iw ss st q).2 = pureAnswer k iw ss st.off q ∧
+    (query k iw ss st q).1.off = st.off ∧ Settled k iw ss (query k iw ss st q).1 := by
+  unfold query pureAnswer
+  by_cases h3 : q < 3
+  · simp only [if_pos h3]
+    obtain ⟨a, o, s⟩ := queryColour_settled k iw ss q st h
+    refine ⟨?_, o, s⟩
+    rw [a]; rfl
+  · simp only [if_neg h3]
+    by_cases h4 : q = 3
+    · simp only [if_pos h4]
+      obtain ⟨a, o, s⟩ := queryRgb_settled k iw ss st h
+      refine ⟨?_, o, s⟩
+      rw [a]; rfl
+    · simp only [if_neg h4]
+      obtain ⟨a, o, s⟩ := queryShape_settled k iw ss [0, 1, 2] st h
+      refine ⟨?_, o, s⟩
+      rw [a]
+
+theorem runSeq_settled (k : Kind) (iw : List Nat) (ss : Streams) (qs : List Nat) (st : ObjState)
+    (h : Settled k iw ss st) :
+    runSeq k iw ss st qs = qs.map (pureAnswer k iw ss st.off) ∧
+    (stateAfter k iw ss st qs).off = st.off := by
+  induction qs generalizing st with
+  | nil => exact ⟨rfl, rfl⟩
+  | cons q qs ih =>
+    obtain ⟨a, o, s⟩ := query_settled k iw ss st q h
+    obtain ⟨ih1, ih2⟩ := ih _ s
+    simp only [runSeq, stateAfter, List.map_cons]
+    rw [ih1, ih2, a, o]
+    exact ⟨rfl, rfl⟩
+theorem first_query_lemma (k : Kind) (iw : List Nat) (s : Stream) (c : Nat) :
+    (photonCount iw.length s.lead s.data = none ↔ startsLate iw.length 0 s = true) ∧
+    ∀ pc, photonCount iw.length s.lead s.data = some pc →
+      (queryColour k iw s c ObjState.fresh).2 = imageOfPixels k (channelPixels iw pc) ∧
+      (queryColour k iw s c ObjState.fresh).1.off = 0 := by
+  have hsl : (chanSlice iw.length 0 s) =
+      if s.lead ≥ 0 then (0, (s.data.drop s.lead.toNat).take iw.length)
+      else (s.lead.natAbs, s.data.take (iw.length - s.lead.natAbs)) := by
+    unfold chanSlice
+    simp
+  by_cases hl : s.lead ≥ 0
+  · have hnl : startsLate iw.length 0 s = false := by
+      unfold startsLate; rw [hsl, if_pos hl]; simp
+    have hpc : photonCount iw.length s.lead s.data = some ((s.data.drop s.lead.toNat).take iw.length) := by
+      unfold photonCount overlap; rw [if_pos hl]
+    refine ⟨by rw [hpc, hnl]; simp, ?_⟩
+    intro pc hp
+    rw [hpc] at hp; cases hp
+    unfold queryColour
+    simp only [ObjState.fresh, lookupImage, List.find?_nil, Option.map_none]
+    rw [photonAccess_not_late k iw s ⟨0, 0, []⟩ hnl]
+    simp only
+    have hf : freshImage k iw s 0 = imageOfPixels k (channelPixels iw ((s.data.drop s.lead.toNat).take iw.length)) := by
+      unfold freshImage channelPixelsAt
+      rw [hsl, if_pos hl]
+      simp
+    rw [hf]
+    cases imageOfPixels k (channelPixels iw ((s.data.drop s.lead.toNat).take iw.length)) with
+    | err e => exact ⟨rfl, rfl⟩
+    | ok im => exact ⟨rfl, rfl⟩
+  · by_cases he : (s.data.take (iw.length - s.lead.natAbs)).length = 0
+    · have hnl : startsLate iw.length 0 s = false := by
+        unfold startsLate; rw [hsl, if_neg hl]; simp [he]
+      have hpc : photonCount iw.length s.lead s.data = some [] := by
+        unfold photonCount; rw [if_neg hl, if_pos he]
+      refine ⟨by rw [hpc, hnl]; simp, ?_⟩
+      intro pc hp
+      rw [hpc] at hp; cases hp
+      unfold queryColour
+      simp only [ObjState.fresh, lookupImage, List.find?_nil, Option.map_none]
+      rw [photonAccess_not_late k iw s ⟨0, 0, []⟩ hnl]
+      simp only
+      have hf : freshImage k iw s 0 = imageOfPixels k (channelPixels iw []) := by
+        unfold freshImage channelPixelsAt
+        rw [hsl, if_neg hl]
+        have : s.data.take (iw.length - s.lead.natAbs) = [] := List.length_eq_zero_iff.mp he
+        simp [this]
+      rw [hf]
+      cases imageOfPixels k (channelPixels iw []) with
+      | err e => exact ⟨rfl, rfl⟩
+      | ok im => exact ⟨rfl, rfl⟩
+    · have hl' : startsLate iw.length 0 s = true := by
+        unfold startsLate; rw [hsl, if_neg hl]
+        have : s.lead.natAbs ≠ 0 := by omega
+        simp only [Bool.and_eq_true, bne_iff_ne]
+        exact ⟨he, this⟩
+      have hpc : photonCount iw.length s.lead s.data = none := by
+        unfold photonCount; rw [if_neg hl, if_neg he]
+      refine ⟨by rw [hpc, hl']; simp, ?_⟩
+      intro pc hp
+      rw [hpc] at hp; cases hp
+
+theorem queryColour_idempotent (k : Kind) (iw : List Nat) (s : Stream) (c : Nat) (st : ObjState) (im : Image)
+    (h : (queryColour k iw s c st).2 = .ok im) (hg : (queryColour k iw s c st).1.gen = st.gen) :
+    queryColour k iw s c (queryColour k iw s c st).1 = ((queryColour k iw s c st).1, .ok im) := by
+  cases hl : lookupImage c st.cache with
+  | some im' =>
+    have hq : queryColour k iw s c st = (st, .ok im') := by unfold queryColour; rw [hl]
+    rw [hq] at h ⊢
+    cases h
+    exact hq
+  | none =>
+    cases hp : photonAccess k iw s st with
+    | error e =>
+      have hq : queryColour k iw s c st = (st, .err e) := by unfold queryColour; rw [hl, hp]
+      rw [hq] at h; cases h
+    | ok st' =>
+      cases hf : freshImage k iw s st'.off with
+      | err e =>
+        have hq : queryColour k iw s c st = (st', .err e) := by
+          unfold queryColour; rw [hl, hp]; simp only; rw [hf]
+        rw [hq] at h; cases h
+      | ok im' =>
+        have hq : queryColour k iw s c st =
+            (if st'.gen = st.gen then { st' with cache := (c, im') :: st'.cache } else st', .ok im') := by
+          unfold queryColour; rw [hl, hp]; simp only; rw [hf]
+        rw [hq] at h hg ⊢
+        cases h
+        have hgen : st'.gen = st.gen := by
+          by_cases hh : st'.gen = st.gen
+          · exact hh
+          · rw [if_neg hh] at hg; exact absurd hg hh
+        simp only [if_pos hgen]
+        unfold queryColour
+        rw [lookupImage_cons]
+        simp
+
 end Verif.C02
